@@ -74,6 +74,9 @@ type Op struct {
 	Keys []Key `json:"keys,omitempty"`
 	// execok / execfail: the broadcast of delivery number Batch succeeded / failed
 	Batch int `json:"batch,omitempty"`
+	// execute (live.go): Keys are handed to a WHOLE Executor.Execute call, which fails at Fail (before
+	// the broadcast) and returns
+	Fail string `json:"fail,omitempty"`
 }
 
 type Case struct {
@@ -87,6 +90,8 @@ type Case struct {
 	Race int `json:"race,omitempty"`
 	// scripted interleaving (script.go): two operations on the same deposits meet inside a call
 	Script *Script `json:"script,omitempty"`
+	// a history of whole Execute calls on one long-lived EVM / Substrate executor (xlive.go)
+	X *XCase `json:"x,omitempty"`
 }
 
 type OpObs struct {
@@ -113,6 +118,8 @@ type Obs struct {
 	Linear  []Op `json:"linear,omitempty"`
 	Parked  bool `json:"parked,omitempty"`
 	Between bool `json:"between,omitempty"`
+	// xlive.go: per Execute call what was handed to ProposalsHash
+	X []XStepObs `json:"x,omitempty"`
 }
 
 // ---- fault-injecting key-value store ----------------------------------------------------------
@@ -123,6 +130,12 @@ type faultKV struct {
 	faults []bool
 	next   int
 	failed []Key
+	writes []kvWrite // successful writes, in order (reset by whoever looks at them)
+}
+
+type kvWrite struct {
+	key Key
+	val string
 }
 
 func parseKey(k []byte) Key {
@@ -166,6 +179,7 @@ func (kv *faultKV) SetByKey(k, v []byte) error {
 		return errors.New("injected write error")
 	}
 	kv.m[string(k)] = append([]byte(nil), v...)
+	kv.writes = append(kv.writes, kvWrite{parseKey(k), string(v)})
 	return nil
 }
 
@@ -405,6 +419,9 @@ type opDriver struct {
 	e         *btcexec.Executor
 	delivered [][]*btcexec.BtcTransferProposal
 	call      func(f func()) (stuck bool)
+	// histories with whole Execute calls (live.go): the executor's collaborators and the store backend
+	env *liveEnv
+	kv  *faultKV
 }
 
 func (d *opDriver) do(op Op) OpObs {
@@ -431,6 +448,8 @@ func (d *opDriver) do(op Op) OpObs {
 				}
 			}
 		}
+	case "execute":
+		o = d.doExecute(op, d.kv)
 	case "execok", "execfail":
 		var batch []*btcexec.BtcTransferProposal
 		if op.Batch >= 0 && op.Batch < len(d.delivered) {
@@ -461,13 +480,26 @@ func run(c Case) Obs {
 	if c.Script != nil {
 		return runScript(c)
 	}
+	if c.X != nil {
+		return runX(c)
+	}
 	kv := &faultKV{m: map[string][]byte{}, faults: c.Faults}
 	for _, e := range c.Init {
 		kv.m[fmt.Sprintf(store.KEY, e.Src, e.Dst, e.Nonce)] = []byte(e.Status)
 	}
 	ps := store.NewPropStore(kv)
 	var obs Obs
-	d := &opDriver{ps: ps, e: newExecutor(ps)}
+	d := &opDriver{ps: ps, kv: kv}
+	live := false
+	for _, op := range c.Ops {
+		live = live || op.Kind == "execute"
+	}
+	if live { // ONE executor object with all its collaborators for the whole history
+		d.env = &liveEnv{}
+		d.e = newLiveExecutor(ps, d.env)
+	} else {
+		d.e = newExecutor(ps)
+	}
 	d.call = func(f func()) bool { return guarded(d.e, &obs.Confirmed, f) }
 	for _, op := range c.Ops {
 		kv.failed = nil
@@ -647,6 +679,10 @@ func gen(r *vgen.Rng, tier string) []Case {
 	out = append(out, genConcCases(r, mult)...)
 	// 6. two operations on the same deposits meeting inside a call (script.go)
 	out = append(out, genScripts(r, mult)...)
+	// 6b. histories on one long-lived executor whose deliveries are whole Execute calls failing before the
+	//     broadcast, released by retries and redelivered (live.go)
+	out = append(out, genLive(r, mult)...)
+	out = append(out, genX(r, mult)...)
 	// 7. the same retry requests on a message channel that is read like the relayer's: unbuffered / one
 	//    slot, the reader not in its receive when the handler gets to its send (chan.go)
 	out = append(out, genChanCases(r, mult)...)
@@ -769,7 +805,7 @@ func coqOp(o Op) string {
 	switch o.Kind {
 	case "retry":
 		return "Retry " + coqPath(o.Path) + " " + n(uint64(o.Src)) + " " + n(uint64(o.Res)) + " " + n(uint64(o.Dest)) + " " + vgen.ListOf(o.Deps, coqDep)
-	case "deliver":
+	case "deliver", "execute":
 		return "Deliver " + vgen.ListOf(o.Keys, coqKey)
 	case "execok":
 		return "ExecOk " + vgen.Nat(o.Batch)
@@ -785,9 +821,9 @@ func coqObs(op Op, o OpObs) string {
 		ou = "OStuck"
 	case op.Kind == "retry":
 		ou = "ORetry " + vgen.ListOf(o.Emitted, coqDep)
-	case op.Kind == "deliver" && o.Err:
+	case (op.Kind == "deliver" || op.Kind == "execute") && o.Err:
 		ou = "ODeliver None"
-	case op.Kind == "deliver":
+	case op.Kind == "deliver" || op.Kind == "execute":
 		ou = "ODeliver (Some " + vgen.ListOf(o.Selected, coqKey) + ")"
 	default:
 		ou = "OExec"
@@ -805,12 +841,20 @@ func coq(c Case, o Obs) string {
 	if c.Script != nil {
 		return coqScript(c, o)
 	}
+	if c.X != nil {
+		return coqX(c, o)
+	}
 	obs := make([]string, len(c.Ops))
 	for i := range c.Ops {
 		obs[i] = coqObs(c.Ops[i], o.Ops[i])
 	}
-	return "Hist " + vgen.ListOf(c.Init, coqEntry) + " " + vgen.ListOf(c.Faults, vgen.Bool) + "\n    " +
-		vgen.ListOf(c.Ops, coqOp) + "\n    " + vgen.List(obs)
+	// a sequential history on one executor object; lives = the operations that were whole Execute calls
+	lives := make([]string, len(c.Ops))
+	for i, op := range c.Ops {
+		lives[i] = vgen.Bool(op.Kind == "execute")
+	}
+	return "HistX " + vgen.ListOf(c.Init, coqEntry) + " " + vgen.ListOf(c.Faults, vgen.Bool) + "\n    " +
+		vgen.ListOf(c.Ops, coqOp) + "\n    " + vgen.List(lives) + "\n    " + vgen.List(obs)
 }
 
 func main() {
@@ -834,6 +878,9 @@ func main() {
 			if c.Script != nil {
 				return o.Parked // the main operation reached the store call at which the other one is let in
 			}
+			if c.X != nil {
+				return len(o.X) >= 2 // a delivery after an Execute call that failed early
+			}
 			if c.Conc != nil {
 				busy := 0
 				for _, th := range c.Conc.Threads {
@@ -852,7 +899,7 @@ func main() {
 					if len(op.Deps) > 0 {
 						return true
 					}
-				case "deliver":
+				case "deliver", "execute":
 					if len(op.Keys) > 0 && !o.Ops[i].Stuck {
 						return true
 					}
